@@ -28,7 +28,8 @@ injective) and, evaluated on representative names, rejects every name with a
 separator, a NUL or a dot directory. WRK-1 - an exception raised by Task.do
 (a command that cannot be started) is turned into FAILED by the worker, which
 still acknowledges the task (path interpretation of the worker loop).
-START-SCOPE - the description-time methods of RunTask / RunTaskFactory raise
+CALL-LOOP - a task that calls run() in a loop stops at the first call that
+did not succeed. START-SCOPE - the description-time methods of RunTask / RunTaskFactory raise
 no OSError and no exception guarded by a file-system probe (which / exists /
 access ...): a missing executable fails the task at run time, not the job
 description.
@@ -49,6 +50,7 @@ def check(ctx):
     ctx.run(extcmd.check_sanitize)
     ctx.run(extcmd.check_sanitizer_body)
     ctx.run(extcmd.check_start_scope)
+    ctx.run(extcmd.check_call_loop)
     ctx.run(sched_worker.check_wrk1)
 
 
@@ -262,5 +264,35 @@ def variants(program):
         return True
     add('twin-factory-warns-about-a-missing-executable', 'twin', RUNM,
         factory_warns_only)
+
+    def _one_target_per_call(stop):
+        def editor(tree):
+            fun = find_func(tree, 'BuildTask.cmake_build_sys')
+            inner = next(n for n in ast.walk(fun) if isinstance(
+                n, ast.FunctionDef) and n.name == 'build_sys')
+            start = next(i for i, s_ in enumerate(inner.body)
+                         if isinstance(s_, ast.Assign) and
+                         txt(s_.targets[0]) == 'build_cli')
+            tail = ('        return status\n' if stop else
+                    "        LOGGER.debug('build of %s returned %s', target, "
+                    "ret)\n")
+            inner.body[start:] = parse_stmts(
+                'for target in ([None] if not targets else targets):\n'
+                "    build_cli = [self.CMAKE, '--build', str(build_dir)]\n"
+                '    if target is not None:\n'
+                "        build_cli.extend(['--target', target])\n"
+                '    if build_flags is not None:\n'
+                '        build_cli.extend(build_flags)\n'
+                '    ret, status, _ = run([build_cli], stdout=log, '
+                'stderr=log, cwd=str(build_dir))\n'
+                '    if ret[-1] != 0:\n' + tail +
+                'return status')
+            return True
+        return editor
+    add('seed-one-build-command-per-target-last-status-wins', 'mutant', CODE,
+        _one_target_per_call(False), {'CALL-LOOP'},
+        note="seed C19-r3-2: targets ['broken', 'good'] end DONE")
+    add('twin-one-build-command-per-target-stopping-at-a-failure', 'twin',
+        CODE, _one_target_per_call(True))
 
     return out
